@@ -1302,7 +1302,9 @@ def rewrite_blockwise(inputs):
 
     # Our final results.  These will change during fusion below
     indices = list(inputs[root].indices)
-    new_axes = inputs[root].new_axes
+    # a copy: the new axes of fused dependencies are added below, and the root
+    # layer of the input graph must not change
+    new_axes = dict(inputs[root].new_axes)
     concatenate = inputs[root].concatenate
     task = inputs[root].task
     dsk = {task.key: task}
